@@ -146,6 +146,10 @@ impl C16 {
             if matches!(ctx.flavour, Flavour::Rel | Flavour::Dbg) {
                 v.extend(limit_probes());
             }
+            // the same object reached along two paths inside one printed / converted value
+            v.push("stel rij = [1, 2]; print([rij, rij, [3, 4]]); print(\"{} {}\", rij, rij); string([rij, [rij], rij])".to_string());
+            v.push("functie paar(x) { [x, x] }; stel p = paar(paar([\"a\"])); print(p); [string(p), lengte(string(p))]".to_string());
+            v.push("stel s = \"tekst\"; stel l = [s, s, s]; l[0][0] = \"T\"; print(l); l".to_string());
             v.push("stel a = [1, 2, [3]]; a[0] = 9; a[2][0] = a; a[1]".to_string());
             v.push("[1, 2, [3]]".to_string());
             v.push("stel i = 0; zolang ja { i += 1 }".to_string());
